@@ -8,7 +8,7 @@ from ..core import HarnessError, Violation
 
 ID = "C05"
 LEVEL = "exploration"
-RULE = ("same (schema, plain value) generator as C04; third values w = fake(S % v) under two RNG "
+RULE = ("same (schema, plain value) generator as C04 (incl. decoy windows and one container object at two positions); third values w = fake(S % v) under two RNG "
         "scripts, the full conforming value, generic single-step perturbations of v and of the full "
         "value, spec-aware near-misses of S (min-1, max+1, len+-1, out-of-alphabet, extra/dropped "
         "keys) and float nudges inside / just outside the tolerance. Oracle: R accepts w implies S "
